@@ -82,6 +82,19 @@ def analyse_program(facts, rounds=8, param_fns=None):
     key = (facts.view, facts.dir)
     if key in _cache:
         return _cache[key]
+    # on-disk cache beside the facts (keyed by the tree hash through facts.dir and by the engine sources)
+    import hashlib, pickle, os
+    h = hashlib.sha256()
+    for f in ('e2.py', 'e2prog.py', 'core.py', 'logic.py'):
+        h.update(open(os.path.join(os.path.dirname(os.path.abspath(__file__)), f), 'rb').read())
+    pk = os.path.join(facts.dir, 'e2-%s.pkl' % h.hexdigest()[:16])
+    if os.path.exists(pk):
+        try:
+            res = pickle.load(open(pk, 'rb'))
+            _cache[key] = res
+            return res
+        except Exception:
+            pass
     t0 = time.time()
     fns = core_functions(facts)
     if len(fns) < 200:
@@ -234,4 +247,10 @@ def analyse_program(facts, rounds=8, param_fns=None):
         div += [(fn.name,) + d for d in eng.div_obl]
     res = {'obl': obl, 'div': div, 'field_ranges': field_ranges, 'param_ranges': param_ranges, 'leaf_total': leaf_total, 'leaf_seen': leaf_seen, 'unvisited': unvisited, 'functions': len(fns), 'fn_names': sorted({f.name for f in fns}), 'escaped': esc, 'resizers': resizers, 'direct_resizers': direct_resizers, 'secs': time.time() - t0}
     _cache[key] = res
+    try:
+        tmp = pk + '.tmp%d' % os.getpid()
+        pickle.dump(res, open(tmp, 'wb'))
+        os.replace(tmp, pk)
+    except Exception:
+        pass
     return res
